@@ -252,7 +252,8 @@ def run(ctx):
     if not dr:
         R.violation('e', 'R2', 'ResourcePoolItem implements Drop', 'item:drop', 'no Drop impl found', None)
     else:
-        calls = [1 for g in dr[0].family() for c in g.body.calls() if any(glob_match(GIVE, n) for n in c.names())]
+        # wherever under drop() the give-back is done (directly, in a closure, or in a private helper shared with the explicit path)
+        calls = ctx.closure_sites(dr[0], [GIVE], depth=3)
         if calls:
             R.ok('e', 'R2', 'Drop for ResourcePoolItem gives the resource back', '', dr[0].loc())
         else:
